@@ -77,6 +77,13 @@ def cases(tier, seed):
         sweep = c.get('_dev', 9) == 0 or (c.get('stext') and c.get('analysis')) or (tier == 'thorough' and c.get('_dev', 9) <= 1)
         yield dict(kind='file', layout=c, sweep=bool(sweep))
     yield dict(kind='empty')
+    # large files (DATA of a few hundred kilobytes, bytes after it): a size check that is only approximately right is exact on small files
+    for lc in (dict(kind='int', widths=[24, 24, 24], byteord='4,3,2,1', rk=['full', 'full', 'full'], nbig=30000, analysis='header', version='FCS3.0'),
+               dict(kind='int', widths=[8, 24], byteord='1,2,3,4', rk=['full', 'full'], nbig=50000, analysis='text', version='FCS3.1'),
+               dict(kind='int', widths=[16, 16], byteord='1,2,3,4', rk=['full', 'full'], nbig=60000, analysis='header', version='FCS2.0'),
+               dict(kind='float', datatype='F', D=2, byteord='4,3,2,1', nbig=40000, analysis='header', stext='after', version='FCS3.0'),
+               dict(kind='float', datatype='D', D=3, byteord='1,2,3,4', nbig=20000, analysis='header', version='FCS3.1')):
+        yield dict(kind='file', layout=lc, sweep=False, big=True)
 
 
 def bounds(tier, seed):
@@ -323,6 +330,11 @@ def run_case(c):
     fault = c.get('fault')
     # truncation at every byte offset
     cuts = range(len(buf)) if fault is None else ([fault[1]] if fault[0] == 'cut' else [])
+    if c.get('big') and fault is None:
+        # large file: cuts on a coarse grid plus every offset within 3 bytes of a segment boundary
+        marks = [58, info['text_begin'], info['text_end'], info['data_begin'], info['data_begin'] + info['data_len'], info['stext'][0], info['stext'][1],
+                 info['analysis'][0], info['analysis'][1], len(buf)]
+        cuts = sorted(set(list(range(0, len(buf), 7919)) + [k_ for m_ in marks if m_ for k_ in range(m_ - 3, m_ + 4) if 0 <= k_ < len(buf)]))
     for k in cuts:
         one = dict(kind='file', layout=lc, fault=['cut', k])
         reg = region(info, k)
@@ -334,7 +346,7 @@ def run_case(c):
     if lay['version'] != 'FCS2.0':
         fields += ['$BEGINDATA', '$ENDDATA', '$BEGINSTEXT', '$ENDSTEXT', '$BEGINANALYSIS', '$ENDANALYSIS']
     for field in fields:
-        for op in FIELD_OPS:
+        for op in FIELD_OPS + (['shift:%d' % (sg * k_) for k_ in range(2, 13) for sg in (1, -1)] if c.get('big') and 'data' in field.lower() else []):
             if fault is not None and fault != ['field', field, op]:
                 continue
             r = patch_field(buf, info, field, op, lay)
@@ -343,7 +355,7 @@ def run_case(c):
             dmg, rew = r
             one = dict(kind='file', layout=lc, fault=['field', field, op])
             fname = re.sub(r'\d+', 'n', field)
-            judge(res, 'field %s changed by %s' % (field, op), 'field:%s:%s' % (fname, op), dmg, intact, one, rewritten=rew)
+            judge(res, 'field %s changed by %s' % (field, op), 'field:%s:%s' % (fname, op if not op.startswith('shift:') else 'shift'), dmg, intact, one, rewritten=rew)
             res.counters['field_corruptions'] += 1
     offset_fields = ['h_text_begin', 'h_text_end', 'h_data_begin', 'h_data_end']
     if lay['version'] != 'FCS2.0':
